@@ -10,9 +10,20 @@ Scripts are built as trees and rendered to text; nothing of pysmt is used to dec
 """
 import itertools
 
-SORTS = ("Bool", "Int", "Real", "BV8", "BV9", "String", "AII", "AIR")
+BASE_SORTS = ("Bool", "Int", "Real", "BV8", "BV9", "String", "AII", "AIR")
+# NAME-COLLISION sorts: an instance of a user parametric sort and 0-ary user sorts whose NAMES are spelled like the
+# rendering of another sort.  The checker never looks at names: a sort is the key it is registered under.
+COLLIDE = ("PairII", "NPair", "NArr", "NBV")
+SORTS = BASE_SORTS + COLLIDE
+PREAMBLE = "(declare-sort Pair 2)\n(declare-sort |Pair{Int, Int}| 0)\n(declare-sort |Array{Int, Int}| 0)\n(declare-sort |BV{8}| 0)\n"
 TEXT = {"Bool": "Bool", "Int": "Int", "Real": "Real", "BV8": "(_ BitVec 8)", "BV9": "(_ BitVec 9)", "String": "String",
-        "AII": "(Array Int Int)", "AIR": "(Array Int Real)"}
+        "AII": "(Array Int Int)", "AIR": "(Array Int Real)",
+        "PairII": "(Pair Int Int)", "NPair": "|Pair{Int, Int}|", "NArr": "|Array{Int, Int}|", "NBV": "|BV{8}|"}
+# structural descriptors (the shape of harness/tocoq.tkey) of the pysmt types the sorts must be read as
+KEY = {"Bool": ("Bool",), "Int": ("Int",), "Real": ("Real",), "BV8": ("BV", 8), "BV9": ("BV", 9), "String": ("String",),
+       "AII": ("Array", ("Int",), ("Int",)), "AIR": ("Array", ("Int",), ("Real",)),
+       "PairII": ("User", "Pair", (("Int",), ("Int",))), "NPair": ("User", "Pair{Int, Int}", ()),
+       "NArr": ("User", "Array{Int, Int}", ()), "NBV": ("User", "BV{8}", ())}
 PYSMT = {"Bool": "Bool", "Int": "Int", "Real": "Real", "BV8": "BV{8}", "BV9": "BV{9}", "String": "String",
          "AII": "Array{Int, Int}", "AIR": "Array{Int, Real}"}
 ARR = {"AII": ("Int", "Int"), "AIR": ("Int", "Real")}
@@ -78,7 +89,8 @@ def render_cmd(c):
 
 
 def render_script(cmds):
-    return "\n".join(render_cmd(c) for c in cmds) + "\n"
+    text = "\n".join(render_cmd(c) for c in cmds) + "\n"
+    return (PREAMBLE if any(TEXT[c] in text for c in COLLIDE) else "") + text
 
 
 # ------------------------------------------------------------------ strict sort checker
@@ -232,7 +244,9 @@ def reference(cmds):
 
 # ------------------------------------------------------------------ term templates per sort
 def ground_terms(s):
-    """[(tag, term)]: a literal and a compound ground term of sort s."""
+    """[(tag, term)]: a literal and a compound ground term of sort s (none for a user sort)."""
+    if s in COLLIDE:
+        return []
     return {
         "Bool": [("lit", lit("Bool", "true")), ("cmp", app("not", lit("Bool", "false")))],
         "Int": [("lit", lit("Int", "3")), ("cmp", app("+", lit("Int", "1"), lit("Int", "2")))],
@@ -247,6 +261,8 @@ def ground_terms(s):
 
 def over(s, x):
     """[(tag, term)]: terms of sort s that mention the symbol x of sort s."""
+    if s in COLLIDE:
+        return [("id", var(x)), ("cmp", app("ite", lit("Bool", "true"), var(x), var(x)))]
     return [("id", var(x)), ("cmp", {
         "Bool": app("not", var(x)),
         "Int": app("+", var(x), lit("Int", "1")),
